@@ -227,7 +227,7 @@ def targeted(ctx):
         pl = [2, 9, 1, 4][j % 4] if eu != 2 else 9
         add(f'addons-eu{eu}', ADDON, enduse=eu, plant=pl, econ=1 + j % 3, cy=rnd.choice([1, 2, 4]))
         add(f'sdac-eu{eu}', [('Do S-DAC-GT Calculations', 'True')], enduse=eu, plant=pl, econ=1 + (j + 1) % 3)
-    add('addons-zero-totals', [('Do AddOn Calculations', 'True')], enduse=1, plant=2)
+    add('addons-zero-totals', ADDON[:2] + [('AddOn CAPEX 1', 0), ('AddOn OPEX 1', 0), ('AddOn Profit Gained 1', 0.4)], enduse=1, plant=2, cy=1)
     add('addons+sdac', ADDON + [('Do S-DAC-GT Calculations', 'True')], enduse=1, plant=1, econ=3, cy=3)
     add('artesian', [('Productivity Index', 9.5), ('Injectivity Index', 8.5), ('Production Wellhead Pressure', 400), ('Reservoir Depth', 3.1)],
         drop=['Reservoir Impedance'], enduse=1, plant=3)
@@ -299,9 +299,14 @@ def check_run(ctx, spec, nodes, name, text, r, col, stats):
     """One report against the specification.  Files property violations for what Python can decide (unit labels, line
     counts, literal lines); numeric lines and tables go to the collector for the Coq model."""
     snap = r.get('snap_post')
-    if not r['ok'] or snap is None or r['report'] is None:
+    if snap is None or r['report'] is None:      # the simulator rejected the input (or failed) before any report existed
         stats['rejected'] += 1
+        stats['rejected:' + name.split('-')[0].split(':')[0]] += 1
+        if name.startswith('target:'):
+            ctx.note(f'targeted configuration {name} was rejected by the simulator: {str(r["error"])[:120]}')
         return None
+    if not r['ok']:
+        stats['runs_ending_in_an_error_after_calculate'] += 1
     R = rep.Renderer(spec, snap)
     try:
         lines = R.run()
@@ -315,7 +320,7 @@ def check_run(ctx, spec, nodes, name, text, r, col, stats):
     if actual and actual[-1] == '':
         actual.pop()
     pos = 0
-    for rec in lines:
+    for ri, rec in enumerate(lines):
         if rec['t'] == 'table':
             rows = actual[pos:pos + rec['n']]
             origin = {'name': name, 'at': pos, 'kind': 'table', 'label': f'table@spec-line-{nodes[rec["nids"][0]][1]["line"]}', 'rec': rec, 'rows': rows}
@@ -341,7 +346,10 @@ def check_run(ctx, spec, nodes, name, text, r, col, stats):
         pos += 1
         lab = runtime_label(items)
         if act is None:
-            ctx.violate('property', f'lines:missing:{lab}', f'{name}: the report ends before the line "{lab}"',
+            nxt = next((runtime_label(x['items']) for x in lines[ri:] if x['t'] == 'line'
+                        and any(ch.isalpha() for ch in runtime_label(x['items']))), lab)
+            kind = 'lines:missing' if r['ok'] else 'writer-abort'
+            ctx.violate('property', f'{kind}:{nxt}', f'{name}: the report ends before "{nxt}"' + ('' if r['ok'] else f' (the writer aborted: {r["error"]})'),
                         inp={'part': 'report', 'name': name, 'input': text}, expected=rep.python_text(items), observed=None)
             break
         if any(it['k'] == 'vol' for it in items):
